@@ -22,6 +22,10 @@ for n in names:
         missed += 1
     rows.append(f"| `{n}` | {what} | {needs} | {status} |")
 table = "\n".join(rows)
+try:
+    ncaught = sum(1 for line in open("/verif/seeded/VERIFY.log") if " CAUGHT " in line)
+except OSError:
+    ncaught = "?"
 text = f'''## 12. Seeded changes (mutation campaign)
 
 Fresh sub-agents were given only the text of one property and a scratch git worktree of /repo under /tmp (nothing from
@@ -37,7 +41,8 @@ the check of its own property); `tools_verify_seeds.sh` re-runs all of them agai
 
 {len(names)} changes kept; {first} were caught by the checks as they stood when the change arrived, {missed} were missed
 at first (or would have been: for a few I strengthened the check on reading the agent's report, before running it) and
-are caught after the strengthening named in the table; one is deliberately not judged.
+are caught after the strengthening named in the table; one is deliberately not judged.  `seeded/VERIFY.log` is the
+last complete `tools_verify_seeds.sh` run over all of them ({ncaught} CAUGHT, the not-judged one MISSED).
 
 | seed | change | needs | result |
 |---|---|---|---|
